@@ -10,7 +10,7 @@
 
 use crate::vals::*;
 use crate::{ex_clone, ex_clone_eq, ex_none, Rig};
-use sea_query::backend::Oper;
+use sea_query::backend::{Mode, Oper};
 use sea_query::error::Error;
 use sea_query::extension::mysql::*;
 use sea_query::extension::postgres::*;
@@ -259,6 +259,7 @@ pub fn static_gate() {
     gate::<PostgresQueryBuilder>();
     gate::<SqliteQueryBuilder>();
     gate::<Oper>();
+    gate::<Mode>();
     gate::<Error>();
     gate::<Token>();
     gate::<Tokenizer>();
@@ -549,6 +550,7 @@ fn exprs(rig: &mut Rig) {
     row!(rig, "PgBinOper", PgBinOper, ce, || PgBinOper::Overlap, dbg);
     row!(rig, "SqliteBinOper", SqliteBinOper, ce, || SqliteBinOper::GetJsonField, dbg);
     row!(rig, "SubQueryOper", SubQueryOper, ce, || SubQueryOper::Any, dbg);
+    row!(rig, "Mode", Mode, n, || Mode::TableAlter, dbg);
     row!(rig, "Oper", Oper, n, || Oper::BinOper(BinOper::SqliteOperator(SqliteBinOper::Glob)), dbg);
 }
 
